@@ -58,7 +58,44 @@ def limit_part(ctx):
                         run.violation({it["id"], f"{it['id']}:limit:{g}"},
                                       {"clause": "after-loop value is not the limit of the termination sequence",
                                        "program": it["text"], "goal": g, "sequence_at_150_300": [a, b], "reported_limit": L})
-    return {"after_loop_limits_checked": checked, "after_loop_limits_undecided": undecided, "after_loop_limit_failures": bad}
+    # central moments and cumulants after the loop: textbook conversion of the far conditional raw moments
+    from math import comb
+    st_checked = st_bad = st_undecided = 0
+    for suffix, results in ctx["results"].items():
+        for it in ctx["items"]:
+            r = results.get(it["id"], {})
+            for g, ao in (r.get("after_stats") or {}).items():
+                for pi, rows in enumerate(ao.get("far_raw", [])):
+                    try:
+                        ra, rb = [[float(F(x)) for x in row] for row in rows]
+                    except Exception:
+                        st_undecided += 1
+                        continue
+                    if any(abs(x - y) > 1e-9 * (abs(y) + 1) for x, y in zip(ra, rb)):
+                        st_undecided += 1
+                        continue
+                    m = [1.0] + rb
+                    mu = m[1]
+                    cen = {k: sum(comb(k, j) * m[j] * (-mu) ** (k - j) for j in range(k + 1)) for k in (2, 3, 4)}
+                    cum = {2: cen[2], 3: cen[3], 4: cen[4] - 3 * cen[2] ** 2}
+                    for kind, ref in (("central", cen), ("cumulant", cum)):
+                        for k, vals in ao.get(kind, {}).items():
+                            v = vals[pi]
+                            if "q" not in v and "approx" not in v:
+                                st_undecided += 1
+                                continue
+                            got = float(F(v["q"])) if "q" in v else float(v["approx"])
+                            st_checked += 1
+                            scale = max(1.0, abs(ref[int(k)]), abs(mu) ** int(k), m[2] ** (int(k) / 2))
+                            if abs(got - ref[int(k)]) > 1e-6 * scale:
+                                st_bad += 1
+                                run.violation({it["id"], f"{it['id']}:after:{kind}{k}:{g}"},
+                                              {"clause": f"{kind} moment after the loop is not the {kind} moment of the limiting conditional law",
+                                               "program": it["text"], "goal": g, "order": k, "reported": got, "from_far_raw_moments": ref[int(k)],
+                                               "far_raw_moments": rb})
+    return {"after_loop_limits_checked": checked, "after_loop_limits_undecided": undecided, "after_loop_limit_failures": bad,
+            "after_loop_central_cumulant_checked": st_checked, "after_loop_central_cumulant_failures": st_bad,
+            "after_loop_central_cumulant_undecided": st_undecided}
 
 
 def main(tier, seed):
@@ -81,6 +118,13 @@ def main(tier, seed):
         ("body_is_one_if_stop_outside_possible", "stop = 0\nc = 0\nx = 0\nwhile stop == 0:\n    if c == 0:\n        x = x + 1\n        c = Bernoulli(1/2)\n    end\n    stop = Bernoulli(1/4)\nend\n",
          ["stop", "x", "c"], {}),
     ]
+    # loops that stop only with probability < 1 (the conversion to central moments is not linear in 1/P(stop))
+    shapes += [
+        ("stops_with_prob_half", "d = Bernoulli(1/2)\nstop = 0\nx = 0\nwhile stop == 0:\n    x = x + 1\n    if d == 1:\n        stop = Bernoulli(1/3)\n    end\nend\n",
+         ["x", "stop"], {}),
+        ("exit_on_draw", "stop = 0\nx = 0\nwhile stop == 0:\n    x = DiscreteUniform(0, 3)\n    if x >= 2:\n        stop = Bernoulli(1/2)\n    end\nend\n",
+         ["x", "stop"], {}),
+    ]
     for name, text, goals, types in shapes:
         decl = "" if not types else "types\n" + "".join(f"    {v} : Finite({', '.join(map(str, vals))})\n" for v, vals in types.items()) + "end\n"
         if not types:
@@ -90,7 +134,7 @@ def main(tier, seed):
     gen_items = C.generated(seed, 30 if quick else 250, profile={"guard": "flag"}, ngoals=3) + \
         C.generated(seed + 1, 20 if quick else 150, profile={"guard": "counter"}, ngoals=3, prefix="genc")
     items += gen_items
-    return analysis_check("C09", tier, seed, items=items, want=["parsed", "term", "after"], builders=[C.b_source, C.b_term],
+    return analysis_check("C09", tier, seed, items=items, want=["parsed", "term", "after", "after_stats"], builders=[C.b_source, C.b_term],
                           N=6 if quick else 9, timeout=120, key_fn=key_fn, post=limit_part,
                           assumptions=["the limit n -> infinity is not decided by the spec: the reported after-loop value is only compared (floating point, outside TLC) with Polar's own sequence at n = 150 and 300"])
 
